@@ -194,7 +194,15 @@ func (st *State) wellFormed(v *Val) Tm {
 			m.le(v.off(), m.lit(maxLen, goInt)),
 			tm(SBool, "(<= %s %s)", v.arr().S, st.alloc.S))
 	case KIface:
-		return and(tm(SBool, "(>= %s 0)", v.ityp().S), tm(SBool, "(<= %s %s)", v.ival().S, st.alloc.S))
+		f := and(tm(SBool, "(>= %s 0)", v.ityp().S), tm(SBool, "(<= %s %s)", v.ival().S, st.alloc.S))
+		// a value of interface type I is nil or has a dynamic type implementing I
+		if v.T != nil && st.x != nil {
+			if it, ok := v.T.Underlying().(*types.Interface); ok && it.NumMethods() > 0 {
+				uf := st.x.implUF(v.T)
+				f = and(f, or(eq(v.ityp(), Tm{"0", SInt}), tm(SBool, "(%s %s)", uf, v.ityp().S)))
+			}
+		}
+		return f
 	case KFunc:
 		return tm(SBool, "(<= %s %s)", v.Fs[1].S.S, st.alloc.S)
 	case KStruct, KTuple:
